@@ -18,6 +18,7 @@ theorem step_stored (s : St) (n : Notif) :
   unfold step
   cases hk : n.kind with
   | cdn => left; rfl
+  | migrate => left; rfl
   | regular =>
     simp only [onSession]
     by_cases hs : skips s.session.dc n.cfgDC = true
@@ -46,7 +47,7 @@ theorem step_stored_of_accepted (s : St) (n : Notif) (h : accepted s n = true) :
   rfl
 
 theorem step_hasStorage (s : St) (n : Notif) : (step s n).1.hasStorage = s.hasStorage := by
-  unfold step onSession onCDNSession saveSession
+  unfold step onSession onCDNSession migrate saveSession
   cases n.kind <;> simp only
   split
   · rfl
@@ -86,10 +87,11 @@ def InSync (s : St) : Prop :=
       d.salt = s.session.salt
 
 theorem step_inSync (s : St) (n : Notif) (hst : s.hasStorage = true) (hf : n.fault = .none)
-    (h : InSync s) : InSync (step s n).1 := by
+    (hm : n.kind ≠ .migrate) (h : InSync s) : InSync (step s n).1 := by
   unfold step
   cases hk : n.kind with
   | cdn => exact h
+  | migrate => exact absurd hk hm
   | regular =>
     simp only [onSession]
     by_cases hs : skips s.session.dc n.cfgDC = true
@@ -102,26 +104,27 @@ theorem step_inSync (s : St) (n : Notif) (hst : s.hasStorage = true) (hf : n.fau
       subst hd
       simp [sessOf]
 
-theorem run_inSync (ns : List Notif) : ∀ (s : St), s.hasStorage = true → (∀ n ∈ ns, n.fault = .none) →
-    InSync s → InSync (run s ns) := by
+theorem run_inSync (ns : List Notif) : ∀ (s : St), s.hasStorage = true →
+    (∀ n ∈ ns, n.fault = .none ∧ n.kind ≠ .migrate) → InSync s → InSync (run s ns) := by
   induction ns with
   | nil => intro s _ _ h; exact h
   | cons n r ih =>
     intro s hst hf h
     rw [run_cons]
     exact ih _ (by rw [step_hasStorage]; exact hst) (fun m hm => hf m (List.mem_cons_of_mem _ hm))
-      (step_inSync s n hst (hf n List.mem_cons_self) h)
+      (step_inSync s n hst (hf n List.mem_cons_self).1 (hf n List.mem_cons_self).2 h)
 
 theorem saveSession_session (s : St) (n : Notif) : (saveSession s n).1.session = s.session := by
   unfold saveSession
   cases s.hasStorage <;> cases n.fault <;> rfl
 
 /-- A client with a non-zero primary DC keeps it whatever arrives from non-zero DCs. -/
-theorem step_primary (s : St) (n : Notif) (hp : s.session.dc ≠ 0) (hn : n.cfgDC ≠ 0) :
-    (step s n).1.session.dc = s.session.dc := by
+theorem step_primary (s : St) (n : Notif) (hp : s.session.dc ≠ 0) (hn : n.cfgDC ≠ 0)
+    (hm : n.kind ≠ .migrate) : (step s n).1.session.dc = s.session.dc := by
   unfold step
   cases hk : n.kind with
   | cdn => rfl
+  | migrate => exact absurd hk hm
   | regular =>
     simp only [onSession]
     by_cases hs : skips s.session.dc n.cfgDC = true
@@ -133,13 +136,13 @@ theorem step_primary (s : St) (n : Notif) (hp : s.session.dc ≠ 0) (hn : n.cfgD
       rw [saveSession_session]
       simp [sessOf, this]
 
-theorem run_primary (ns : List Notif) : ∀ (s : St), s.session.dc ≠ 0 → (∀ n ∈ ns, n.cfgDC ≠ 0) →
-    (run s ns).session.dc = s.session.dc := by
+theorem run_primary (ns : List Notif) : ∀ (s : St), s.session.dc ≠ 0 →
+    (∀ n ∈ ns, n.cfgDC ≠ 0 ∧ n.kind ≠ .migrate) → (run s ns).session.dc = s.session.dc := by
   induction ns with
   | nil => intro s _ _; rfl
   | cons n r ih =>
     intro s hp hn
-    have h1 := step_primary s n hp (hn n List.mem_cons_self)
+    have h1 := step_primary s n hp (hn n List.mem_cons_self).1 (hn n List.mem_cons_self).2
     rw [run_cons, ih _ (by rw [h1]; exact hp) (fun m hm => hn m (List.mem_cons_of_mem _ hm)), h1]
 
 theorem accepted_dc {s : St} {n : Notif} (h : accepted s n = true) :
